@@ -64,6 +64,12 @@ def check(ctx):
         bt = big_text(kb, step, ch)
         srcs.append(("sv", bt))
         srcs.append(("pp", {"top.sv": "`include \"big.svh\"\n", "big.svh": bt}))
+    # include chains around the recursion limit: the file and the string entry points stop at the same level
+    for depth in ((64, 65) if q else (1, 15, 63, 64, 65, 66)):
+        fs = {"top.sv": "// top\nt0\n`include \"c1.svh\"\n"}
+        for i in range(1, depth + 1):
+            fs["c%d.svh" % i] = "x%d\n" % i + ("`include \"c%d.svh\"\n" % (i + 1) if i < depth else "leaf\n")
+        srcs.append(("pp", fs))
     cases, meta = [], {}
     n = 0
     for k, t in srcs:
